@@ -97,20 +97,16 @@ def _lock():
 
 
 def regenerate_tables():
-    """tools/extract: /repo source -> coq/Gen/Tables.v (rewritten only when its text changes)."""
+    """tools/extract: /repo source -> coq/Gen/Tables.v, coq/Gen/Sigs.v.  The program writes every generated
+    file itself, each only when its text changes, and none at all when one table cannot be extracted."""
     src = os.path.join(VERIF, "tools", "extract")
     if not os.path.exists(os.path.join(src, "main.go")):
         return
-    out = subprocess.run(["go", "run", ".", REPO], cwd=src, env=GOENV,
+    out = subprocess.run(["go", "run", ".", "-o", os.path.join(COQ, "Gen"), REPO], cwd=src, env=GOENV,
                          capture_output=True, timeout=300)
     if out.returncode != 0:
-        raise BuildError("tools/extract failed (a table is no longer a plain composite literal?)",
+        raise BuildError("tools/extract failed (a table / signature / constant no longer has the expected plain shape?)",
                          out.stderr.decode(errors="replace"))
-    path = os.path.join(COQ, "Gen", "Tables.v")
-    old = open(path, "rb").read() if os.path.exists(path) else None
-    if old != out.stdout:
-        with open(path, "wb") as f:
-            f.write(out.stdout)
 
 
 COQPROJECT_HEAD = """-Q . PV
@@ -285,6 +281,26 @@ def print_assumptions(prop_module, names, tmp):
             res[n] = blk[k:].strip() if k >= 0 else blk.strip()[-800:]
         pos = start + 1
     return res
+
+
+def coqchk(prop_module, timeout=3000):
+    """independent re-check of the compiled property file and everything it depends on (thorough tier)"""
+    lk = _lock()
+    try:
+        t0 = time.time()
+        try:
+            p = subprocess.run(["coqchk", "-silent", "-o", "-Q", ".", "PV", "PV." + prop_module], cwd=COQ,
+                               capture_output=True, timeout=timeout)
+        except subprocess.TimeoutExpired:
+            return {"ok": False, "tail": "coqchk timed out after %d s" % timeout}
+        text = (p.stdout + p.stderr).decode(errors="replace")
+        m = re.search(r"CONTEXT SUMMARY.*", text, re.S)
+        summary = re.sub(r"\s+", " ", m.group(0)) if m else text[-600:]
+        axioms = re.search(r"\* Axioms:(.*?)\* Constants", summary)
+        return {"ok": p.returncode == 0, "wall_s": round(time.time() - t0, 1), "summary": summary[:1500],
+                "axioms": axioms.group(1).strip() if axioms else None, "tail": text[-600:] if p.returncode else ""}
+    finally:
+        lk.close()
 
 
 def dependency_cone(targets):
@@ -464,6 +480,10 @@ def run_check(prop, tier, seed, replay=None):
             pa = print_assumptions(prop.prop_module, names, tmp)
             discharged = sum(1 for n in names if pa.get(n) is not None)
             cov["print_assumptions"] = pa
+            if tier == "thorough" and not os.environ.get("PV_NO_COQCHK"):
+                cov["coqchk"] = coqchk(prop.prop_module)
+                if not cov["coqchk"].get("ok"):
+                    proof_broken = ("coqchk rejects the compiled development of " + prop.prop_module, cov["coqchk"].get("tail", ""))
             hits = forbidden_scan(prop.coq_targets)
             if hits:
                 proof_broken = ("forbidden construct in the Coq sources: " + "; ".join(hits[:5]), "")
@@ -618,8 +638,10 @@ def run_check(prop, tier, seed, replay=None):
     cov.setdefault("trusted_base", [])
     cov.setdefault("samples", [])
     cov.setdefault("rule", prop.rule)
-    os.makedirs(os.path.join(VERIF, "evidence"), exist_ok=True)
-    with open(os.path.join(VERIF, "evidence", prop.id + ".json"), "w") as f:
+    # experiments against a scratch worktree (PV_REPO) must not overwrite the evidence of /repo itself
+    evdir = os.path.join(VERIF, "evidence") if REPO == "/repo" else tempfile.gettempdir()
+    os.makedirs(evdir, exist_ok=True)
+    with open(os.path.join(evdir, ("" if REPO == "/repo" else "pv_scratch_evidence_") + prop.id + ".json"), "w") as f:
         json.dump(ev, f, indent=1, default=str)
     for l in known_lines:
         print(l)
